@@ -66,7 +66,11 @@ def umeyama_alignment(x: np.ndarray, y: np.ndarray,
 
     # SVD (text betw. eq. 38 and 39)
     u, d, v = np.linalg.svd(cov_xy)
-    if np.count_nonzero(d > np.finfo(d.dtype).eps) < m - 1:
+    # Also use a relative tolerance as in numpy.linalg.matrix_rank: with only
+    # the absolute one, degenerate sets with large coordinates are not detected.
+    eps = np.finfo(d.dtype).eps
+    tol = max(eps, d.max() * max(cov_xy.shape) * eps)
+    if np.count_nonzero(d > tol) < m - 1:
         raise GeometryException("Degenerate covariance rank, "
                                 "Umeyama alignment is not possible")
 
